@@ -104,6 +104,9 @@ class TemplateWriter(IWriter):
             # To not break old links we also create a symlink from the full module name to the index.html
             # file. This is also good for consistency: every module is accessible by <full module name>.html
             root_module_path = (self.build_directory / (list(system.root_names)[0] + '.html'))
+            if root_module_path.name == 'index.html':
+                # The root module is itself named 'index': its page already is index.html.
+                return
             try:
                 root_module_path.unlink()
                 # not using missing_ok=True because that was only added in Python 3.8 and we still support Python 3.6
